@@ -383,15 +383,45 @@ func c08r6(c *Ctx) {
 	if len(bodies) == 0 {
 		bodies = []*ssa.Function{fn}
 	}
+	// forwards(h): h hands its parameters (list, action) on to Builder.build -> indices of those parameters
+	forwards := func(h *ssa.Function) (li, ai int, ok bool) {
+		li, ai = -1, -1
+		eachInstr(h, func(ins ssa.Instruction) {
+			call, isCall := ins.(*ssa.Call)
+			if !isCall || !isCallTo(call, bb) || len(call.Call.Args) < 3 {
+				return
+			}
+			if pl, isP := call.Call.Args[1].(*ssa.Parameter); isP {
+				li = paramIndex(h, pl)
+			}
+			if pa, isP := call.Call.Args[2].(*ssa.Parameter); isP {
+				ai = paramIndex(h, pa)
+			}
+		})
+		return li, ai, li >= 0 && ai >= 0
+	}
 	for _, body := range bodies[:1] {
 		eachInstr(body, func(ins ssa.Instruction) {
 			call, ok := ins.(*ssa.Call)
-			if !ok || !isCallTo(call, bb) || len(call.Call.Args) < 3 {
+			if !ok || len(call.Call.Args) < 3 {
 				return
 			}
-			lf := fieldOfLoad(call.Call.Args[1])
+			listArg, actArg := 1, 2
+			if !isCallTo(call, bb) {
+				// a same-package helper that forwards (list, action) to Builder.build
+				sc := call.Call.StaticCallee()
+				if sc == nil || len(sc.Blocks) == 0 || sc.Pkg != body.Pkg {
+					return
+				}
+				li, ai, fw := forwards(sc)
+				if !fw || li >= len(call.Call.Args) || ai >= len(call.Call.Args) {
+					return
+				}
+				listArg, actArg = li, ai
+			}
+			lf := fieldOfLoad(call.Call.Args[listArg])
 			if lf == nil {
-				if f2, ok := call.Call.Args[1].(*ssa.Field); ok {
+				if f2, ok := call.Call.Args[listArg].(*ssa.Field); ok {
 					lf = fieldVar(f2.X.Type(), f2.Field)
 				}
 			}
@@ -403,7 +433,7 @@ func c08r6(c *Ctx) {
 				return
 			}
 			seen[lf.Name()] = true
-			k, ok := call.Call.Args[2].(*ssa.Const)
+			k, ok := call.Call.Args[actArg].(*ssa.Const)
 			wv, _ := constInt(p.Const(pkgRbac, w))
 			c.Check("policy list "+lf.Name()+" built with "+w, call.Pos(), ok && k.Value != nil && k.Int64() == wv, "the "+lf.Name()+" list is compiled with a different RBAC action: deny rules would admit, or allow rules reject")
 		})
